@@ -246,3 +246,48 @@ pub fn plant_deep(item: &mut Item, g: &mut Gen, total: usize, outer: usize) -> O
     }
     Some((p, d))
 }
+
+/// Visit every map of `item` (depth first; inside clean wrapped byte strings too) with its index.
+pub fn for_each_map_mut(item: &mut Item, idx: &mut usize, f: &mut dyn FnMut(usize, &mut Vec<(Item, Item)>)) {
+    match item {
+        Item::Array(v) => v.iter_mut().for_each(|x| for_each_map_mut(x, idx, f)),
+        Item::Map(m) => {
+            f(*idx, m);
+            *idx += 1;
+            m.iter_mut().for_each(|(_, v)| for_each_map_mut(v, idx, f));
+        }
+        Item::Tag(_, x) => for_each_map_mut(x, idx, f),
+        Item::Wrapped(w) if w.is_clean() => for_each_map_mut(&mut w.inner, idx, f),
+        _ => {}
+    }
+}
+
+pub fn count_maps(item: &Item) -> usize {
+    let mut out = vec![];
+    map_depths(item, 0, false, &mut out);
+    out.len()
+}
+
+/// Add `n` fresh entries (private-use negative integer labels, disjoint between maps, or text labels)
+/// to each map of `item` whose index is in `which`; `order` 0 ascending, 1 descending, 2 scattered.
+pub fn widen_maps(item: &mut Item, which: &[usize], n: usize, order: usize, text: bool) {
+    let mut idx = 0;
+    for_each_map_mut(item, &mut idx, &mut |j, m| {
+        if !which.contains(&j) {
+            return;
+        }
+        for i in 0..n {
+            let k = match order {
+                0 => i,
+                1 => n - 1 - i,
+                _ => (i * 7919) % n.max(1),
+            };
+            let label = if text {
+                Item::Text(format!("w{}-{:07}", j, k))
+            } else {
+                Item::Int(-(100_000 + (j as i128) * 10_000_000 + k as i128))
+            };
+            m.push((label, Item::Int(0)));
+        }
+    });
+}
